@@ -848,9 +848,18 @@ func TestZZVCodec(t *testing.T) {
 		m := c.build(v.Sk, zzvNewStream(cseed))
 		want, cells := zzvConcretise(v.Runs, zzvNewStream(cseed))
 		enc, pv := zzvEncode(c, m)
-		if v.Legacy && pv == nil {
-			// the bytes under test are the spec's legacy layout; m (missing fields zero) is what must come out
-			legacy++
+		for variant := 3; v.Legacy && pv == nil && variant >= 0; variant-- {
+			// the bytes under test are the spec's legacy layout; m (missing fields zero) is what must come out.
+			// Several content streams, so that the flag bytes around the cut take both values.
+			if variant > 0 {
+				m = c.build(v.Sk, zzvNewStream(cseed+int64(variant)*7777))
+				want, cells = zzvConcretise(v.Runs, zzvNewStream(cseed+int64(variant)*7777))
+			} else {
+				m = c.build(v.Sk, zzvNewStream(cseed))
+				want, cells = zzvConcretise(v.Runs, zzvNewStream(cseed))
+				legacy++
+			}
+			st.evals++
 			enc = want
 			o := zzvDecode(c, enc, false)
 			ok := o.panicv == nil && o.err == nil
